@@ -1242,6 +1242,47 @@ void inter_copy_frame_mvs(EbDecHandle *dec_handle, BlockModeInfo *mi, int mi_row
     }
 }
 
+#ifdef SVT_AV1_VERIF
+/* Verification hook H4 (guarded, add-only): per-block syntax usage counters of the decoder parse, read by the
+ * test-only accessor svt_verif_dec_tool_stats().  Index: 0 blocks 1 palette_y 2 palette_uv 3 intrabc 4 obmc
+ * 5 warped_causal 6 filter_intra 7 cfl 8 inter_intra 9 wedge_or_diffwtd_compound 10 compound 11 inter_blocks
+ * 12 distance_weighted_compound 13 intra_blocks */
+static volatile uint64_t verif_tool_cnt[16];
+EB_API void svt_verif_dec_tool_stats(uint64_t *out, int reset) {
+    for (int i = 0; i < 16; i++) {
+        if (out)
+            out[i] = verif_tool_cnt[i];
+        if (reset)
+            verif_tool_cnt[i] = 0;
+    }
+}
+static void svt_verif_count_block(const BlockModeInfo *mi) {
+#define VCNT(i) __sync_fetch_and_add(&verif_tool_cnt[i], 1)
+    VCNT(0);
+    if (mi->use_intrabc) {
+        VCNT(3);
+        return;
+    }
+    if (mi->ref_frame[0] > INTRA_FRAME) {
+        VCNT(11);
+        if (mi->motion_mode == OBMC_CAUSAL) VCNT(4);
+        if (mi->motion_mode == WARPED_CAUSAL) VCNT(5);
+        if (mi->ref_frame[1] > INTRA_FRAME) {
+            VCNT(10);
+            if (mi->inter_inter_compound.type == COMPOUND_WEDGE || mi->inter_inter_compound.type == COMPOUND_DIFFWTD) VCNT(9);
+            else if (mi->compound_idx == 0) VCNT(12);
+        } else if (mi->is_inter_intra)
+            VCNT(8);
+    } else {
+        VCNT(13);
+        if (mi->palette_size[0] > 0) VCNT(1);
+        if (mi->palette_size[1] > 0) VCNT(2);
+        if (mi->filter_intra_mode_info.use_filter_intra) VCNT(6);
+        if (mi->uv_mode == UV_CFL_PRED) VCNT(7);
+    }
+#undef VCNT
+}
+#endif
 void mode_info(EbDecHandle *dec_handle, PartitionInfo *part_info, ParseCtxt *parse_ctxt) {
     BlockModeInfo *mi         = part_info->mi;
     FrameHeader *  frame_info = parse_ctxt->frame_header;
@@ -1263,6 +1304,9 @@ void mode_info(EbDecHandle *dec_handle, PartitionInfo *part_info, ParseCtxt *par
         inter_frame_mode_info(dec_handle, parse_ctxt, part_info);
         inter_copy_frame_mvs(dec_handle, mi, mi_row, mi_col, x_mis, y_mis);
     }
+#ifdef SVT_AV1_VERIF
+    svt_verif_count_block(mi);
+#endif
 }
 
 TxSize read_tx_size(ParseCtxt *parse_ctxt, PartitionInfo *xd, int allow_select) {
